@@ -49,6 +49,10 @@ IsEvent(e) == l <= Len(Trace) /\ Trace[l].ev = e /\ l' = l + 1
 Keep(vs) == UNCHANGED vs
 
 Has(r, f) == f \in DOMAIN r
+\* residual of the transport ledger between the snapshot before (mov) and after (nit) the transport routine:
+\* change of mineral N + uptake + leaching + drain loss - source term
+ResidualOf(nit, mov) == LSub(LAdd(LAdd(LAdd(LSub(nit.sumC1, mov.sumC1), LSub(nit.AUFNASUM, mov.AUFNASUM)), LSub(nit.OUTSUM, mov.OUTSUM)),
+                                  LSub(nit.DRAINLOSS, mov.DRAINLOSS)), mov.sumDNw)
 
 \* ---------------------------------------------------------------------------------------------
 \* binding actions
@@ -139,7 +143,10 @@ TSubNitro == /\ IsEvent("sub.nitro") /\ (pc = "subNitro" \/ (pc \in {"nitroMiner
              /\ pc' = (IF E.err # "" THEN "failed" ELSE IF nsub < Trace[ix.stp].steps THEN "subPre" ELSE "denit")
              /\ ix' = [ix EXCEPT !.nit = l]
              /\ hist' = (IF E.finished THEN [hist EXCEPT !.harv = Append(@, <<E.zeit, Trace[ix.crop].akf>>)] ELSE hist)
-             /\ acc' = (IF Has(E, "clamp") /\ E.err = "" THEN [acc EXCEPT !.clamp = LAdd(@, E.clamp)] ELSE acc)
+             \* what the non-negativity clamp of the transport routine added today: the residual of the transport ledger in
+             \* the sub-steps that left a layer at its floor (see C02_Transport)
+             /\ acc' = (IF Has(E, "nfloor") /\ E.err = "" /\ E.nfloor > 0 /\ ix.mov > 0
+                        THEN [acc EXCEPT !.clamp = LAdd(@, ResidualOf(E, Trace[ix.mov]))] ELSE acc)
              /\ Keep(<<nsub, prev, tenv, gwseen>>)
 
 TDayDenit == /\ IsEvent("day.denit") /\ pc = "denit"
@@ -310,11 +317,16 @@ C02_Untouched == /\ AfterCrop => LAbsLe(D(Crop, Inp, "sumC1"), TolN)
                  /\ (AfterMove /\ Mov.subd = 1) => LAbsLe(D(Mov, Minr, "sumC1"), TolN)
                  /\ (AfterMove /\ Mov.subd > 1) => LAbsLe(D(Mov, Nit, "sumC1"), TolN)
 \* transport: change = source term - uptake - leaching - drain loss + what the non-negativity clamp added
-TransportResidual == LSub(LAdd(LAdd(LAdd(D(Nit, Mov, "sumC1"), D(Nit, Mov, "AUFNASUM")), D(Nit, Mov, "OUTSUM")), D(Nit, Mov, "DRAINLOSS")), Mov.sumDNw)
-C02_Transport == AfterNitro => LAbsLe(LSub(TransportResidual, Nit.clamp), TolN)
-\* the clamp only adds, and a layer value below the documented threshold flags the run as unstable
-C02_Clamp == AfterNitro => /\ LGeNeg(Nit.clamp, 0)
-                           /\ (Nit.minCk < Cfg.stab => Nit.unstable)
+TransportResidual == ResidualOf(Nit, Mov)
+\* Transport only moves N between layers.  The one tolerated deviation is the non-negativity clamp: it can only ADD, and
+\* it leaves its witness in the state: a layer that ends the sub-step at its floor (no more mineral N than the source
+\* term of the sub-step put there; Nit.nfloor counts them).  So: the residual is never negative, and it is zero
+\* whenever no layer is at the floor.  (How much the clamp added in a floor layer is internal to the routine: the
+\* reconstruction from its dispersion / convection arrays is compared as MODEL-DRIFT in the kernel replay only.)
+C02_Transport == AfterNitro => /\ LGeNeg(TransportResidual, TolN)
+                               /\ (Nit.nfloor = 0 => LAbsLe(TransportResidual, TolN))
+\* more than the documented threshold (1.5 kg N/ha in a layer) added in one sub-step flags the run as unstable
+C02_Clamp == AfterNitro => (LGeNeg(LSub(TransportResidual, [h |-> 1500 * Nit.nfloor, l |-> TolN]), 0) /\ Nit.nfloor > 0 => Nit.unstable)
 \* denitrification withdraws what it reports
 C02_Denit == AfterDenit => LAbsLe(LAdd(D(Den, Nit, "sumC1"), D(Den, Nit, "CUMDENIT")), TolN)
 \* the day, with the reported counters (as the property words it)
